@@ -243,8 +243,9 @@ def reset_logging():
                 lg.removeHandler(h)
 
 
-def run_main(argv, cwd=None, home=None):
-    """cminx.main(argv) in-process with cwd/HOME switched for the duration of the call."""
+def run_main(argv, cwd=None, home=None, env=None):
+    """cminx.main(argv) in-process with cwd/HOME switched for the duration of the call. `env`: further environment
+    variables for the call (e.g. CMINXDIR, XDG_CONFIG_HOME, XDG_CONFIG_DIRS: where the per-user configuration lives)."""
     m = cminx()
     old_cwd = os.getcwd()
     old_env = {k: os.environ.get(k) for k in ("HOME", "XDG_CONFIG_HOME", "XDG_CONFIG_DIRS", "CMINXDIR")}
@@ -256,6 +257,8 @@ def run_main(argv, cwd=None, home=None):
             os.environ.pop("XDG_CONFIG_HOME", None)
             os.environ["XDG_CONFIG_DIRS"] = os.path.join(home, "no-such-xdg")
             os.environ.pop("CMINXDIR", None)
+        for k_, v_ in (env or {}).items():
+            os.environ[k_] = v_
         o = guarded(m.main, list(argv))
     finally:
         os.chdir(old_cwd)
